@@ -432,6 +432,7 @@ def suite_crash(seed, tier):
     r = Result("crash")
     n_cfg = 3 if tier == "quick" else 25
     evals = 0
+    terms, meta = [], []
     for k in range(n_cfg):
         case = gen_mr_case(rng)
         while len(case["files"]) < 2:
@@ -475,8 +476,21 @@ def suite_crash(seed, tier):
                                       "final cluster file that is not the complete result", "case": case})
                         break
                 name, v, vp, ref = variants[cp % 3]
+                # files the workflow does not own must survive the re-run untouched
+                (d / "zz-foreign.txt").write_text("x")
+                (d / "a-foreign.npy").write_text("x")
+                before = read_dir(d, case["nf"])
                 run_impl(v, d, None, paths=vp)
                 got = read_dir(d, case["nf"])
+                if len(terms) < (12 if tier == "quick" else 150) and (cp % 2 == 0 or tier != "quick"):
+                    terms.append(f"check_mr fexp {cfg_term(v['cfg'])} {files_term(v)} {dir_term(before)} "
+                                 f"(Some {dir_term(got)})")
+                    meta.append({"case": v, "crash_at": cp, "rerun": name,
+                                 "leftovers": [n for n, _ in before]})
+                if not all(e in got for e in before if e[0] in ("zz-foreign.txt", "a-foreign.npy")):
+                    r.bad.append({"suite": "crash", "what": "the re-run removed or changed a file it does not own",
+                                  "case": case, "crash_at": cp, "rerun": name})
+                    break
                 if finals(got) != ref:
                     r.bad.append({"suite": "crash", "what": f"crash at file action {cp} followed by a re-run "
                                   f"({name}) in the same directory gives other final clusters than a fresh directory",
@@ -486,10 +500,19 @@ def suite_crash(seed, tier):
                     r.bad.append({"suite": "crash", "what": "cleanup left intermediate round files", "case": case})
                     break
                 shutil.rmtree(d)
+    pre = hist.exp_preamble(120).replace("From BB Require Import Model.Obs.",
+                                         "From BB Require Import Model.Obs.\n" + PRE_IMPORT.strip())
+    out = eval_cases("mrcrash", pre, terms, shard=6)
+    for m, o in zip(meta, out):
+        if o.strip() != "true":
+            r.bad.append({"suite": "crash", "what": "the directory after crash + re-run differs from "
+                          "Model/Multiround.v run on the crash leftovers", **m})
     r.cases = evals
     r.nontrivial = evals
-    r.stats = {"configurations": n_cfg}
-    r.samples = [{"rerun_kinds": ["same", "threshold", "fewer-files"]}]
+    r.stats = {"configurations": n_cfg, "model_reruns_from_leftovers": len(terms),
+               "leftover_dir_sizes": sorted({len(m["leftovers"]) for m in meta})}
+    r.samples = [{"rerun_kinds": ["same", "threshold", "fewer-files"]}] + \
+                [{"crash_at": m["crash_at"], "rerun": m["rerun"], "leftovers": m["leftovers"][:8]} for m in meta[:1]]
     return r
 
 
@@ -525,6 +548,33 @@ def replay_mr(which):
                 return False
             return c05_violation(case, read_dir(tmp / "out", case["nf"])) is None
     return replay
+
+
+def replay_c14(payload):
+    """crash at the recorded file action, re-run the recorded variant in the same directory and
+    compare the final files with a fresh directory; True = property holds on this input"""
+    fi = payload.get("failing_input")
+    if not fi or "case" not in fi or "crash_at" not in fi:
+        return True
+    case, cp, name = fi["case"], fi["crash_at"], fi.get("rerun", "same")
+    with tempfile.TemporaryDirectory(prefix="verif_c14r_") as tmp:
+        tmp = Path(tmp)
+        (tmp / "in").mkdir()
+        paths = write_inputs(case, tmp / "in")
+        v, vp = case, paths
+        if name == "threshold":
+            v = {**case, "cfg": {**case["cfg"], "thr": 0.9 if case["cfg"]["thr"] < 0.6 else 0.2}}
+        elif name == "fewer-files":
+            v, vp = {**case, "files": case["files"][1:]}, paths[1:]
+        (tmp / "fresh").mkdir()
+        (tmp / "used").mkdir()
+        try:
+            run_impl(v, tmp / "fresh", None, paths=vp)
+            count_and_crash({**case, "cfg": {**case["cfg"], "cleanup": False}}, paths, tmp / "used", cp)
+            run_impl(v, tmp / "used", None, paths=vp)
+        except Exception:
+            return False
+        return finals(read_dir(tmp / "used", case["nf"])) == finals(read_dir(tmp / "fresh", case["nf"]))
 
 
 if __name__ == "__main__":
